@@ -5,6 +5,7 @@ import (
 	"fmt"
 	"os"
 	"runtime"
+	"runtime/pprof"
 	"strconv"
 )
 
@@ -30,6 +31,14 @@ func main() {
 		}
 		if t := os.Getenv("VERIF_TIER"); t != "" && *tier == "" {
 			*tier = t
+		}
+		if pf := os.Getenv("SYMGO_PROF"); pf != "" {
+			f, _ := os.Create(pf)
+			pprof.StartCPUProfile(f)
+			code := runCheck(*prop, *tier, seed, *entry)
+			pprof.StopCPUProfile()
+			f.Close()
+			os.Exit(code)
 		}
 		os.Exit(runCheck(*prop, *tier, seed, *entry))
 	default:
